@@ -19,6 +19,8 @@ func init() {
 var pkcs7Facts = []*fact{factIssuer, factSerial, factSignature, factContentDigest}
 
 func checkC04(c *Ctx) {
+	c.ruleOptionalLast("A.trailing")
+	c.R.Floor("A.trailing", 1)
 	c.ruleSerialValue("A.serial-value")
 	c.ruleFrozen("A.frozen")
 	c.R.Floor("A.frozen", 5)
@@ -132,6 +134,7 @@ func (c *Ctx) sameSigner(fn *ssa.Function) {
 func checkC02(c *Ctx) {
 	// the digest that is compared covers exactly the bytes being verified (shared with C01)
 	checkC01(c)
+	c.ruleOptionalLast("A.trailing")
 	c.ruleFrozen("A.frozen")
 	c.R.Floor("A.frozen", 5)
 	e := c.accept()
@@ -390,4 +393,97 @@ func (c *Ctx) ruleSerialValue(rule string) {
 	if n == 0 {
 		c.R.Infof(rule, "-", "integer-value", "-", "not decided for this shape: no store of the signer entry's serial number found")
 	}
+}
+
+// ruleOptionalLast (A.trailing): a nested DER structure that a parser has cut
+// out (ReadASN1(&s, SEQUENCE)) and from which it reads an OPTIONAL element as
+// the last thing must be looked at again afterwards (Empty, or another read).
+// Otherwise an element with a different tag in the optional one's place is
+// neither read nor rejected: the [0] content of a ContentInfo re-tagged [1]
+// makes the blob look detached and the digest binding is skipped.
+func (c *Ctx) ruleOptionalLast(rule string) int {
+	n := 0
+	counts := map[string]int{}
+	for _, fn := range c.P.LibFunctions() {
+		if fn.Pkg == nil || !strings.HasSuffix(fn.Pkg.Pkg.Path(), "/pkcs7") && !strings.HasSuffix(fn.Pkg.Pkg.Path(), "/authenticode") {
+			continue
+		}
+		fn := fn
+		// nested structures: locals filled through the out-parameter of a ReadASN1*
+		nested := map[*ssa.Alloc]bool{}
+		instrsOf(fn, func(i ssa.Instruction) {
+			call, ok := i.(*ssa.Call)
+			if !ok || !strings.HasPrefix(ir.CallID(call), cbPkg+".String.Read") {
+				return
+			}
+			for _, a := range call.Call.Args[1:] {
+				if al, isA := a.(*ssa.Alloc); isA && ir.NamedTypeID(al.Type()) == cbPkg+".String" {
+					nested[al] = true
+				}
+			}
+		})
+		usesOf := func(al *ssa.Alloc, i ssa.Instruction) bool {
+			call, ok := i.(ssa.CallInstruction)
+			if !ok {
+				return false
+			}
+			args := ir.CallArgs(call)
+			if len(args) == 0 || !strings.HasPrefix(ir.CallID(call), cbPkg+".String.") {
+				return false
+			}
+			if args[0] == ssa.Value(al) {
+				return true
+			}
+			// value-receiver methods (Empty) take a copy of the string
+			ld, isLd := args[0].(*ssa.UnOp)
+			return isLd && ld.Op == token.MUL && ld.X == ssa.Value(al)
+		}
+		for _, b := range fn.Blocks {
+			for idx, i := range b.Instrs {
+				call, ok := i.(*ssa.Call)
+				if !ok || !strings.HasPrefix(ir.CallID(call), cbPkg+".String.ReadOptionalASN1") {
+					continue
+				}
+				al, isA := call.Call.Args[0].(*ssa.Alloc)
+				if !isA || !nested[al] {
+					continue
+				}
+				n++
+				key := ordinalKey(counts, name(fn)+":optional")
+				construct := strings.TrimPrefix(key, name(fn)+":")
+				later := false
+				for _, j := range b.Instrs[idx+1:] {
+					if usesOf(al, j) {
+						later = true
+					}
+				}
+				bad := ""
+				if !later {
+					blocked := map[int]bool{}
+					for _, bb := range fn.Blocks {
+						for _, j := range bb.Instrs {
+							if bb != b && usesOf(al, j) {
+								blocked[bb.Index] = true
+							}
+						}
+					}
+					cut := map[ir.Edge]bool{}
+					for bi := range blocked {
+						for _, p := range fn.Blocks[bi].Preds {
+							cut[ir.Edge{From: p.Index, To: bi}] = true
+						}
+					}
+					seen, _ := ir.Reach(fn, b, cut)
+					for _, r := range acceptingReturns(fn) {
+						if seen[r.Block().Index] {
+							bad = c.IPos(r)
+						}
+					}
+				}
+				c.R.Check(bad == "", rule, name(fn), construct, c.IPos(call), "after an optional element is read from a nested structure, what is left of the structure is looked at (Empty or a further read)",
+					"the optional element is the last thing read from the structure and the function returns successfully at "+bad+" without looking at what is left: an element with another tag in its place is skipped silently (the blob then counts as not having the optional part)")
+			}
+		}
+	}
+	return n
 }
